@@ -5,6 +5,7 @@ from pv import judges, plans, wcprog
 
 ID = 'C10'
 TITLE = 'ToContext barrier'
+ANCHORS = ['plumpy.workchains:WorkChain.to_context', 'plumpy.workchains:WorkChain._do_step', 'plumpy.workchains:Waiting.enter', 'plumpy.workchains:Waiting.exit', 'plumpy.workchains:Waiting._awaitable_done', 'plumpy.processes:Process.launch']
 LEVEL = 'exploration'
 TECHNIQUE = ('runtime monitoring: barrier assertion evaluated at the entry of the step after each ToContext/to_context registration, under '
              'enumerated completion orders, placements and outcome mixes of the awaited futures / child processes')
